@@ -12,7 +12,7 @@ pkgs = "./..."
 if "--pkgs" in sys.argv:
     pkgs = sys.argv[sys.argv.index("--pkgs") + 1]
 d = os.path.join(V, "seeded", sid)
-wt = "/tmp/wt_vs_slot%s" % os.environ.get("VERIF_SEED_SLOT", "0")   # fixed path per slot (Go build cache reuse)
+wt = "/tmp/wt_vs_slot%s" % os.environ.get("VERIF_SEED_SLOT", "p%d" % os.getpid())   # fixed path per slot (Go build cache reuse)
 env = dict(os.environ, GOPROXY="off")
 def sh(cmd, **kw):
     return subprocess.run(cmd, shell=True, cwd=wt, env=env, stdout=subprocess.PIPE, stderr=subprocess.STDOUT, text=True, **kw)
